@@ -60,6 +60,8 @@ pub struct RefServer {
     pub ses_anon: bool,
     pub ses_cookie: bool,
     pub ses_realm: String,
+    /// reason phrase for the next error body (hostile personality: very long phrases with multi-byte characters)
+    pub reason: Option<String>,
 }
 
 #[derive(Clone, Debug)]
@@ -123,6 +125,7 @@ impl RefServer {
             cfg,
             nonce_ctr: 0,
             cur_nonce: None,
+            reason: None,
         }
     }
 
@@ -213,6 +216,21 @@ impl RefServer {
             _ => req.find(A_FINGERPRINT).is_some(),
         };
         let code = kv_get(spec, "code").and_then(|c| c.parse::<u16>().ok());
+        // reason=<n>:<shift>:<kind>: a phrase of about n bytes with one multi-byte character starting at byte `shift`
+        self.reason = kv_get(spec, "reason").map(|r| {
+            let parts: Vec<usize> = r.split(':').filter_map(|x| x.parse().ok()).collect();
+            let (n, shift, kind) = (parts.first().copied().unwrap_or(10), parts.get(1).copied().unwrap_or(0), parts.get(2).copied().unwrap_or(0));
+            let ch = ["\u{e9}", "\u{20ac}", "\u{1F600}"][kind % 3];
+            let mut t = String::new();
+            while t.len() < shift.min(n) {
+                t.push('a');
+            }
+            t.push_str(ch);
+            while t.len() < n {
+                t.push('b');
+            }
+            t
+        });
         let mut what = String::new();
         let mut b;
         // integrity: (kind(s), key)
@@ -476,7 +494,7 @@ impl RefServer {
         match code {
             Some(c) => {
                 let mut b = Builder::new(C_ERROR, req.method, &req.txid);
-                b.push_attr(A_ERROR_CODE, &error_code_value(c, "Error"));
+                b.push_attr(A_ERROR_CODE, &error_code_value(c, &self.reason.clone().unwrap_or_else(|| "Error".to_string())));
                 what.push_str(&format!("err{}", c));
                 b
             }
